@@ -811,12 +811,20 @@ def write_pam(matrix, matrix_size, out, scale=1, border=None, dark='#000', light
     bg_color = _color_to_rgb_or_rgba(light, alpha_float=False) if light is not None else None
     colored_stroke = not (_color_is_black(stroke_color) or _color_is_white(stroke_color))
     if bg_color is None:
-        tuple_type = 'GRAYSCALE_ALPHA' if not colored_stroke else 'RGB_ALPHA'
+        tuple_type = 'GRAYSCALE_ALPHA' if not colored_stroke and len(stroke_color) != 4 else 'RGB_ALPHA'
         transparency = True
         bg_color = _invert_color(stroke_color[:3])
         bg_color += (0,)
         if len(stroke_color) != 4:
             stroke_color += (255,)
+    elif len(stroke_color) == 4 or len(bg_color) == 4:
+        # At least one color provides an alpha channel
+        tuple_type = 'RGB_ALPHA'
+        transparency = True
+        if len(stroke_color) != 4:
+            stroke_color += (255,)
+        if len(bg_color) != 4:
+            bg_color += (255,)
     elif colored_stroke or not (_color_is_black(bg_color) or _color_is_white(bg_color)):
         tuple_type = 'RGB'
     is_rgb = tuple_type.startswith('RGB')
